@@ -1,4 +1,6 @@
 open Model
 let () = Driver.main [
   { Driver.name = "spsc"; run = spsc_run; judge = spsc_judge };
+  { Driver.name = "cursor"; run = cursor_run; judge = cursor_judge };
+  { Driver.name = "worker"; run = worker_run; judge = worker_judge };
 ]
